@@ -11,7 +11,7 @@ Local Open Scope string_scope.
 
 Theorem C09_decorated_methods :
   py_decorated =
-  ["_cofactor_vars"; "_quantify_vars"; "add_expr"; "compose"; "cube"; "ite"; "reduction"; "rename"; "var"].
+  ["_cofactor_vars"; "_cube_of_literals"; "_quantify_vars"; "add_expr"; "compose"; "ite"; "reduction"; "rename"; "var"].
 Proof. exact decorated_table. Qed.
 Print Assumptions C09_decorated_methods.
 
